@@ -210,7 +210,7 @@ def load_known(prop_id):
 # written by harness/py2lean.py on every run) belong to which property, and which source files they render.
 SRC_TIE = {
     'C01': ['Codec', 'Msg'], 'C02': ['Codec', 'Msg'], 'C03': ['Codec'],
-    'C04': ['Tok', 'Parser'], 'C05': ['Tok', 'Parser'], 'C06': ['Tok', 'Parser'], 'C18': ['Tok'], 'C19': ['Tok'],
+    'C04': ['Tok', 'Parser', 'ParserSession'], 'C05': ['Tok', 'Parser', 'ParserSession'], 'C06': ['Tok', 'Parser', 'ParserSession'], 'C18': ['Tok'], 'C19': ['Tok'],
     'C07': ['Vlq', 'VlqRead', 'Tracks', 'Writer', 'Reader', 'FileRoundTrip'], 'C08': ['Vlq', 'VlqRead', 'Writer', 'Reader'], 'C09': ['Meta', 'Vlq', 'MetaFrame'], 'C10': ['Ports'], 'C11': ['Ports'],
     'C12': ['Tracks'], 'C16': ['Tracks'],
 }
@@ -219,6 +219,7 @@ SRC_TIE_FILES = {
     'Parser': ['mido/parser.py', 'mido/tokenizer.py'],
     'MetaFrame': ['mido/midifiles/meta.py'],
     'Ports': ['mido/ports.py'],
+    'ParserSession': ['mido/parser.py', 'mido/tokenizer.py'],
     'FileRoundTrip': ['mido/midifiles/midifiles.py', 'mido/midifiles/tracks.py', 'mido/midifiles/meta.py'],
     'Msg': ['mido/messages/decode.py', 'mido/messages/encode.py', 'mido/messages/specs.py'],
     'Tok': ['mido/tokenizer.py'],
